@@ -121,6 +121,17 @@ func (p *Parser) current() Token {
 
 // Term parses a term followed by a full stop.
 func (p *Parser) Term() (Term, error) {
+	t, err := p.termEnd()
+	if err != nil && err != io.EOF {
+		// A syntax error: the offending token is consumed. As after an end token, the last rune taken from the
+		// input is then one that was only looked at, so that a caller who hands one rune back to its stream
+		// (read_term/2,3) hands back look-ahead, never the last character of the offending token.
+		p.lexer.lookAhead()
+	}
+	return t, err
+}
+
+func (p *Parser) termEnd() (Term, error) {
 	p.buf.discard()
 
 	t, err := p.term(1201)
